@@ -131,9 +131,10 @@ LOOP = _Loop()
 SCHEDULES = {
     "fixed1": dict(adaptive=False, n_steps=1),
     "fixed2": dict(adaptive=False, n_steps=2),
-    "fixed3": dict(adaptive=False, n_steps=3),
+    "fixed4": dict(adaptive=False, n_steps=4),
     "adaptive_half": dict(adaptive=True, min_step=0.5),
     "adaptive_cap2": dict(adaptive=True, max_n_steps=2),
+    "adaptive_cap3": dict(adaptive=True, max_n_steps=3),
     "adaptive_free": dict(adaptive=True),
 }
 
@@ -232,6 +233,7 @@ class RunEnv:
                 "beta": state.get("meta", {}).get("beta"),
                 "bytes": blob,
                 "n_beta": len(state["history"].beta),
+                "n_acc": len(state["history"].mcmc_acceptance),
                 "n_hist": len(state["history"].sample_history),
                 "samples_x": sx.terms(state["samples"].x),
                 "samples_ll": sx.terms(state["samples"].log_likelihood),
